@@ -399,6 +399,9 @@ func c24Mutate(rt *rapid.T, p *gen.Program, kind string) (ctx string, ok bool) {
 			// the defective pattern guards a block with nothing in it
 			if kind == "regex-too-long" {
 				bad = strings.Repeat("a", 1100)
+				if rapid.Bool().Draw(rt, "multibyte") {
+					bad = strings.Repeat("\u00e9", 600) // 1200 bytes in 600 characters
+				}
 			}
 			return insert(&gen.Stmt{Op: "cond", Pat: &gen.Pattern{ID: 9998, Toks: []gen.PatTok{{Kind: "lit", Lit: "zz" + bad}}}}) + ":empty-block", true
 		}
@@ -406,6 +409,9 @@ func c24Mutate(rt *rapid.T, p *gen.Program, kind string) (ctx string, ok bool) {
 			switch rapid.IntRange(0, 2).Draw(rt, "longform") {
 			case 0:
 				bad = strings.Repeat("a", 1100)
+				if rapid.Bool().Draw(rt, "multibyte2") {
+					bad = strings.Repeat("\u00e9", 600) // the limit is in bytes
+				}
 			case 1:
 				// two literals, each within the limit, concatenated with +
 				pt.Toks = append(pt.Toks, gen.PatTok{Kind: "lit", Lit: strings.Repeat("a", 600)})
